@@ -44,7 +44,20 @@ type Stats struct {
 	Counters    map[string]int64 `json:"counters"`
 }
 
+var statsMu sync.Mutex
+
+// Add adds to the plain counters under the stats lock (for checks that expand
+// states on several goroutines).
+func (s *Stats) Add(evaluations, traces int64) {
+	statsMu.Lock()
+	s.Evaluations += evaluations
+	s.Traces += traces
+	statsMu.Unlock()
+}
+
 func (s *Stats) Class(c string) {
+	statsMu.Lock()
+	defer statsMu.Unlock()
 	if s.Classes == nil {
 		s.Classes = map[string]int64{}
 	}
@@ -52,6 +65,8 @@ func (s *Stats) Class(c string) {
 }
 
 func (s *Stats) Count(c string, n int64) {
+	statsMu.Lock()
+	defer statsMu.Unlock()
 	if s.Counters == nil {
 		s.Counters = map[string]int64{}
 	}
@@ -59,6 +74,8 @@ func (s *Stats) Count(c string, n int64) {
 }
 
 func (s *Stats) Sample(v any) {
+	statsMu.Lock()
+	defer statsMu.Unlock()
 	if len(s.Samples) < 4 {
 		s.Samples = append(s.Samples, v)
 	}
